@@ -461,10 +461,13 @@ CURATED = {
     "P21-stop-with-join-racing": ([("start",), ("enq", "ret"), ("spawn",), ("stop",), ("joinsub",)], [("join", BIG)]),
     "P22-backlog-then-chain": ([("enq", "ret"), ("enq", "ret"), ("enq", "ret"), ("start",), ("join", BIG), ("sleep", 61), ("chain", 0, 2), ("chain", 1, 2), ("result", "c3", BIG)], None),
     "P23-chain3": ([("start",), ("chain", 0, 3), ("chain", 1, 3), ("chain", 2, 3), ("result", "c0", BIG)], None),
+    "P25-task-then-chain": ([("start",), ("enq", "ret"), ("chain", 0, 2), ("chain", 1, 2), ("result", "c2", BIG)], None),
+    "P26-two-tasks-then-chain": ([("start",), ("enq", "ret"), ("enq", "raise"), ("chain", 0, 2), ("chain", 1, 2), ("result", "c3", BIG)], None),
+    "P27-chain-then-task-restart": ([("start",), ("enq", "ret"), ("stop",), ("start",), ("enq", "ret"), ("chain", 0, 2), ("chain", 1, 2), ("result", "c3", BIG)], None),
     "P24-enq-during-idle-retire": ([("start",), ("enq", "ret"), ("result", "c0", BIG), ("spawn",), ("sleep", 61), ("joinsub",), ("result", "s0", BIG)], [("enq", "ret")]),
 }
 
-ALPHABET = ["S", "X", "Er", "Ex", "Eg", "O", "R", "J", "Jt", "Z"]
+ALPHABET = ["S", "X", "Er", "Ex", "Eg", "Ch", "O", "R", "J", "Jt", "Z"]
 
 
 def generated_programs(L):
@@ -477,7 +480,7 @@ def generated_programs(L):
     def rec(prog, running, ever, tasks, opened, awaited, n):
         if prog:
             out.append(list(prog))
-        if len(prog) >= L:
+        if sum(1 for o in prog if not (o[0] == "chain" and o[1] == 1)) >= L:
             return
         last = prog[-1][0] if prog else None
         for a in ALPHABET:
@@ -494,6 +497,10 @@ def generated_programs(L):
                 if len(tasks) >= 3:
                     continue
                 rec(prog + [("enq", kind)], running, ever, tasks + [kind], opened, awaited, n)
+            elif a == "Ch":
+                if len(tasks) >= 2 or "chain" in tasks:
+                    continue
+                rec(prog + [("chain", 0, 2), ("chain", 1, 2)], running, ever, tasks + ["chain", "chain"], opened, awaited, n)
             elif a == "O":
                 cand = [i for i, k in enumerate(tasks) if k == "gated" and i not in opened]
                 if not cand:
@@ -522,7 +529,7 @@ def generated_programs(L):
     keep = []
     for p in out:
         names = [o[0] for o in p]
-        if "enq" in names and "start" in names:
+        if ("enq" in names or "chain" in names) and "start" in names:
             keep.append(p)
     return keep
 
